@@ -77,12 +77,15 @@ Definition simple_read (data : json) : result (list spart * list scourse) :=
   let* cs := de_vec de_course cd in
   ROk (ps, cs).
 
-(* io::check_data_consistency (with the penalty bound of fix 39561cd and the instructor-uniqueness check of the fix after it) *)
+(* io::check_data_consistency (with the penalty bound of fix 39561cd, the instructor-uniqueness check of a385a72 and the size bound) *)
+(* the matching matrix has one row per participant / course place; i32::MAX / WEIGHT_OFFSET - 2 rows at most (third fix) *)
+Definition max_rows : Z := (2147483647 / WEIGHT_OFFSET - 2)%Z.
 Fixpoint nodupz (l : list Z) : bool := match l with [] => true | x :: t => negb (existsb (Z.eqb x) t) && nodupz t end.
 Definition consistentb (ps : list spart) (cs : list scourse) : bool :=
   forallb (fun p => forallb (fun ch => (sc_course ch <? Z.of_nat (List.length cs))%Z && (sc_pen ch <? WEIGHT_OFFSET)%Z) (sp_choices p)) ps &&
   forallb (fun c => forallb (fun i => (i <? Z.of_nat (List.length ps))%Z) (so_instr c) && (so_min c <=? so_max c)%Z) cs &&
-  nodupz (flat_map so_instr cs).
+  nodupz (flat_map so_instr cs) &&
+  (Z.of_nat (List.length ps) + fold_right Z.add 0%Z (map so_max cs) <=? max_rows)%Z.
 Lemma nodupz_NoDup l : nodupz l = true -> NoDup l.
 Proof.
   induction l as [|x t IH]; simpl; intros H; [constructor|]. apply andb_prop in H. destruct H as [H1 H2]. constructor; [|apply IH; exact H2].
@@ -175,8 +178,8 @@ Proof.
   destruct (de_vec de_part pd) as [ps0|] eqn:Ep; [|discriminate]. cbn [bind].
   destruct (ok_or (get "courses" data) 71) as [cd|]; [|discriminate]. cbn [bind].
   destruct (de_vec de_course cd) as [cs0|] eqn:Ec; [|discriminate]. cbn [bind].
-  intros H Hc. inversion H; subst ps0 cs0. clear H. unfold consistentb in Hc. apply andb_prop in Hc. destruct Hc as [Hc H3].
-  apply andb_prop in Hc. destruct Hc as [H1 H2].
+  intros H Hc. inversion H; subst ps0 cs0. clear H. unfold consistentb in Hc. apply andb_prop in Hc. destruct Hc as [Hc _].
+  apply andb_prop in Hc. destruct Hc as [Hc H3]. apply andb_prop in Hc. destruct Hc as [H1 H2].
   rewrite forallb_forall in H1, H2. split; [|split; [|split; [|apply nodupz_NoDup; exact H3]]].
   - intros p ch Hp Hch. destruct (de_vec_In _ _ _ _ Ep Hp) as (a & Ha). destruct (de_part_nonneg a p ch Ha Hch) as [N1 N2].
     specialize (H1 p Hp). rewrite forallb_forall in H1. specialize (H1 ch Hch). apply andb_prop in H1. destruct H1 as [L1 L2].
@@ -191,3 +194,7 @@ Qed.
 (* a refused document never reaches the solver: with the exit-status skeleton of main.rs (Cli) it ends with status 65 *)
 Theorem refused_not_accepted data : (exists code, simple_read data = RErr code) -> simple_accepts data = false.
 Proof. intros (code & H). unfold simple_accepts. rewrite H. reflexivity. Qed.
+
+(* the size clause of the consistency check *)
+Lemma consistent_rows ps cs : consistentb ps cs = true -> (Z.of_nat (List.length ps) + fold_right Z.add 0 (map so_max cs) <= max_rows)%Z.
+Proof. unfold consistentb. intros H. apply andb_prop in H. destruct H as [_ H]. apply Z.leb_le. exact H. Qed.
